@@ -26,7 +26,14 @@ def from_fluxes(rng):
     T = gen.edge_temperature(rng)
     mode = rng.choice(["vac", "temp", "press"])
     Tperm = rng.uniform(200.0, T - 20.0) if mode == "temp" else None
+    if mode == "temp" and rng.random() < 0.3:
+        Tperm = T - gen.logu(rng, 3.0, 20.0)         # a warm condenser: the permeate side is a large share of the driving force
     pperm = rng.uniform(0.05, 8.0) if mode == "press" else None
+    # the permeate condition as a caller may pass it: a float, a Python int, a numpy scalar
+    if Tperm is not None:
+        Tperm = gen.as_given(rng, Tperm, p_int=0.2)
+    if pperm is not None:
+        pperm = gen.as_given(rng, pperm, p_int=0.2)
     basis = gen.tstr(rng, rng.choice(["weight", "weight", "molar"]))
     P = (gen.logu(rng, 1e-6, 1.0), gen.logu(rng, 1e-6, 1.0))
     comps, fluxes, Ls = [], [], []
